@@ -79,13 +79,15 @@ def extract (cat : Option Category) (μ : Metric) (m : Msg) : Option Rat :=
     | none => none
     | some f => readField f m
 
-/-- A `ComponentMetricRequest`, identified with its registry channel: `get_channel_name()` is built from exactly
-these four fields, and requests are deduplicated by that name. -/
+/-- A `ComponentMetricRequest`, identified with its registry channel — what a subscriber listens on:
+`get_channel_name()` is built from exactly these four fields, `start` being the RENDERED `start_time` (`str(datetime)`,
+`none` for `None`): the same instant written with another UTC offset is another channel, the same rendering is the same
+channel.  Requests are deduplicated by that name. -/
 structure Chan where
   ns : String
   cid : Nat
   metric : Metric
-  start : Option Int
+  start : Option String
 deriving DecidableEq, Repr
 
 structure Sample where
